@@ -39,6 +39,46 @@ theorem decodes_ptr' {msg : Bytes} {q cs : Nat} {w : List UInt8} {n k : Nat} (b1
   · rw [e1, e2, ← hpe]; exact hlt
   · rw [e1, e2, ← hpe]; exact rest
 
+/-- the RFC relation only looks at the message: a message that agrees with `msg` on all of `msg`
+    decodes the same names -/
+theorem decodes_prefix {msg msg' : Bytes} (hm : ∀ i, i < msg.size → msg'[i]? = msg[i]?)
+    {p cs n k : Nat} {w : List UInt8} (h : Decodes msg p cs w n k) : Decodes msg' p cs w n k := by
+  have hsz : msg.size ≤ msg'.size := by
+    by_cases h0 : msg.size = 0
+    · omega
+    · have h1 := hm (msg.size - 1) (by omega)
+      rw [Array.getElem?_eq_getElem (show msg.size - 1 < msg.size by omega)] at h1
+      have h2 := getElem?_some_lt h1
+      omega
+  have hget : ∀ i (hi : i < msg.size), msg'[i]'(by omega) = msg[i] := by
+    intro i hi
+    have := hm i hi
+    rw [Array.getElem?_eq_getElem hi, Array.getElem?_eq_getElem (by omega)] at this
+    exact Option.some.inj this
+  induction h with
+  | null h h0 => exact .null (by omega) (by rw [hget _ h]; exact h0)
+  | @label pos cs w n k h h0 h63 hin rest ih =>
+    have e := hget pos h
+    have hex : (msg'.extract pos (pos + msg[pos].toNat + 1)).toList =
+        (msg.extract pos (pos + msg[pos].toNat + 1)).toList := by
+      congr 1
+      apply Array.ext_getElem?
+      intro j
+      simp only [Array.getElem?_extract]
+      by_cases hj : j < min (pos + msg[pos].toNat + 1) msg.size - pos
+      · rw [if_pos hj, if_pos (by omega)]; exact hm _ (by omega)
+      · rw [if_neg hj, if_neg (by omega)]
+    have := Decodes.label (msg := msg') (pos := pos) (cs := cs) (w := w) (n := n) (k := k) (by omega)
+      (by rw [e]; exact h0) (by rw [e]; exact h63) (by rw [e]; omega) (by rw [e]; exact ih)
+    rw [e, hex] at this
+    exact this
+  | @ptr pos cs w n k h hp hb rest ih =>
+    have e1 := hget pos (by omega)
+    have e2 := hget (pos + 1) h
+    refine Decodes.ptr (msg := msg') (pos := pos) (cs := cs) (k := k) (by omega) (by rw [e1]; exact hp) ?_ ?_
+    · rw [e1, e2]; exact hb
+    · rw [e1, e2]; exact ih
+
 /-- wire form of a list of labels -/
 def wireOf (ls : List Label) : List UInt8 := ls.flatMap WName.encLabel ++ [0]
 
